@@ -662,9 +662,25 @@ def r12(ctx):
     if not ok:
         raise AnchorMissing('PyWindow::from: the struct literal it returns')
     v = peel(rv[0][0])
+    # Window::boundaries() hands out the four positions as a tuple: component k of it is the field it is built from
+    bnd = {}
+    for x in ctx.facts.bodies:
+        if x.kind != 'Closure' and norm_path(x.path).endswith('windows::Window::boundaries'):
+            rvb = ret_values(x)
+            if len(rvb) == 1 and peel(rvb[0][0])[0] == 'agg' and peel(rvb[0][0])[1] == 'tuple':
+                for k_, comp in enumerate(peel(rvb[0][0])[3]):
+                    cc_ = core(comp)
+                    if cc_[0] == 'field' and match(cc_[1], ('arg', 1, ANY)):
+                        bnd[k_] = cc_[2]
+
+    def same_field(f_, name):
+        c_ = core(f_)
+        if match(c_, ('field', ('arg', 1, ANY), name)):
+            return True
+        return c_[0] == 'field' and isinstance(c_[2], int) and match(core(c_[1]), Call('Window::boundaries', ('arg', 1, ANY))) and bnd.get(c_[2]) == name
     for name in ('ctx_start', 'window_start', 'window_end', 'ctx_end'):
         f_ = agg_field(ctx.facts, v, name)
-        ctx.require(f_ is not None and match(core(f_), ('field', ('arg', 1, ANY), name)), b, 'py-field|' + name, 'PyWindow.%s = window.%s' % (name, name),
+        ctx.require(f_ is not None and same_field(f_, name), b, 'py-field|' + name, 'PyWindow.%s = window.%s' % (name, name),
                     'PyWindow.%s is %s' % (name, show_in(b, f_)[:60] if f_ is not None else 'missing'))
     st = agg_field(ctx.facts, v, 'str')
     chain_ = []
@@ -675,3 +691,40 @@ def r12(ctx):
     ok = st is not None and match(core(cur), ('field', ('arg', 1, ANY), 'str')) and all(n_ in ('to_string', 'to_owned', 'into', 'from', 'clone', 'deref', 'as_ref', 'borrow') for n_ in chain_)
     ctx.require(ok, b, 'py-field|str', 'PyWindow.str = window.str, copied as it is',
                 'PyWindow.str is %s: the reported string is not the context slice' % (show_in(b, st)[:80] if st is not None else 'missing'))
+
+
+@rule('C16', 'R-C16-13', 'T3 LOOP-EXIT (the window loop ends at the end of the text only)',
+      'the window loops of char() and byte() are left towards Ok(..) only through their head test `window_start < cs.len()`: every other way out '
+      'is an error. An extra `break` ("this context already reaches the end of the text") loses the last window: the windows no longer tile the text')
+def r13(ctx):
+    from analysis.sym import edge_guards
+    for fn in ('char', 'byte'):
+        b = ctx.body(W + fn)
+        pushes = [t for t in b.calls(r'Vec::push$') if 'Window' in b.local_ty(t.args[0].place.local)]
+        lps = [l for l in cfg.loops(b) if any(t.bb in l.blocks for t in pushes)]
+        if len(lps) != 1:
+            raise AnchorMissing('%s: the window loop (found %d)' % (fn, len(lps)))
+        lp = lps[0]
+        _roles(b)
+        rets = ret_values(b)
+        n_ok = 0
+        for (u, v) in lp.exits(b):
+            reach = cfg.reach_const(b, v)
+            oks = [blk for x, blk in rets if blk in reach and peel(x)[0] == 'agg' and peel(x)[2].endswith('Result::Ok')]
+            if not oks:
+                continue       # towards an error (or a panic): not a way to return windows
+            gs = [g for g in edge_guards(b) if g.block == u and g.target == v]
+            head = False
+            for g in gs:
+                t_, pol_ = g.atom()
+                c_ = core(t_)
+                if pol_ is not None and c_[0] == 'bin' and c_[1] in ('Lt', 'Ge', 'Gt', 'Le') and \
+                        any(match(core(x), Call('CharString::len', ANY)) or has(init_value(b, x), Call('CharString::len', ANY)) for x in (c_[2], c_[3])) and \
+                        any(match(core(x), _var('window_start')) for x in (c_[2], c_[3])):
+                    head = True
+            n_ok += 1
+            ctx.require(head, b, 'window-loop-exit|' + fn, '%s: the window loop returns its windows only when window_start reached the end of the text' % fn,
+                        '%s: the window loop can also be left at line %d (on `%s`) and the windows collected so far are returned: the last window(s) are missing' % (
+                            fn, b.blocks[u].term.span['line'], show_in(b, gs[0].t)[:60] if gs else '?'), b.blocks[u].term.span)
+        if n_ok == 0:
+            raise AnchorMissing('%s: an exit of the window loop that leads to Ok(windows)' % fn)
